@@ -94,6 +94,127 @@ def _all_palette_classes():
     return seen
 
 
+class StateSnapshot:
+    """Pristine module- and class-level state of the ak modules under test, restorable in place.
+
+    DESIGN §1.2 lists the caches known when the checks were written; a later change may hoist another
+    scratch buffer / memo to module or class scope.  Rendering histories must each start from the state
+    of a fresh interpreter, otherwise what a history observes depends on the histories a worker ran
+    before it and a failing history does not replay.  The snapshot therefore covers *every* name of the
+    modules and of the classes defined in them (recursively), one level of attributes of instances of
+    those classes reachable from there, the content of dict / list / set containers, and lru caches:
+      - a name rebound since the snapshot is bound back, a name added since is deleted,
+      - a container keeps its identity and gets its pristine content back.
+    Taken once per process before anything is rendered.
+    """
+    CONTAINERS = (dict, list, set)
+
+    def __init__(self, modules):
+        self.mod_names = {m.__name__ for m in modules}
+        self.owners = []          # (owner, {name: value})   modules and classes
+        self.inst = []            # (instance, {attr: value})
+        self.contents = []        # (container, copy)
+        self.lru = []
+        self._seen = set()
+        for m in modules:
+            self._owner(m)
+
+    def _ours(self, tp):
+        return getattr(tp, "__module__", None) in self.mod_names
+
+    def _owner(self, owner):
+        if _real_id(owner) in self._seen:
+            return
+        self._seen.add(_real_id(owner))
+        names = {}
+        for name, val in list(vars(owner).items()):
+            if name.startswith("__") and name.endswith("__"):
+                continue
+            names[name] = val
+            self._value(val)
+        self.owners.append((owner, names, len(vars(owner))))
+
+    def _value(self, val, depth=0):
+        if isinstance(val, type):
+            if self._ours(val):
+                self._owner(val)
+            return
+        if hasattr(val, "cache_clear") and callable(getattr(val, "cache_clear", None)):
+            self.lru.append(val)
+            return
+        if _real_id(val) in self._seen:
+            return
+        if isinstance(val, self.CONTAINERS) or isinstance(val, (weakref.WeakKeyDictionary, weakref.WeakValueDictionary)):
+            self._seen.add(_real_id(val))
+            try:
+                self.contents.append((val, val.copy()))
+            except Exception:  # noqa
+                return
+            if depth < 2 and isinstance(val, (dict, list, set)):
+                for x in (val.values() if isinstance(val, dict) else val):
+                    self._value(x, depth + 1)
+            return
+        if self._ours(type(val)) and depth < 2:
+            self._seen.add(_real_id(val))
+            attrs = {}
+            names = list(getattr(val, "__dict__", {}).keys())
+            for klass in type(val).__mro__:
+                sl = klass.__dict__.get("__slots__", ())
+                names.extend([sl] if isinstance(sl, str) else list(sl))
+            for a in names:
+                if a.startswith("__"):
+                    continue
+                try:
+                    v = getattr(val, a)
+                except AttributeError:
+                    continue
+                attrs[a] = v
+                self._value(v, depth + 1)
+            self.inst.append((val, attrs))
+
+    def restore(self):
+        for fn in self.lru:
+            fn.cache_clear()
+        for owner, names, n_names in self.owners:
+            now = vars(owner)
+            if len(now) != n_names:
+                for n in [n for n in now if n not in names and not (n.startswith("__") and n.endswith("__"))]:
+                    delattr(owner, n)                      # a name that did not exist in a fresh interpreter
+            for n, v in names.items():
+                if now.get(n, None) is not v:
+                    setattr(owner, n, v)
+        for obj, attrs in self.inst:
+            d = getattr(obj, "__dict__", None)
+            if d is not None and len(d) != sum(1 for a in attrs if a in d):
+                for a in [a for a in d if a not in attrs]:
+                    delattr(obj, a)
+            for a, v in attrs.items():
+                try:
+                    if getattr(obj, a) is not v:
+                        setattr(obj, a, v)
+                except AttributeError:
+                    setattr(obj, a, v)
+        for cont, copy_ in self.contents:
+            if len(cont) != len(copy_) or cont != copy_:
+                if isinstance(cont, list):
+                    cont[:] = copy_
+                else:
+                    cont.clear()
+                    cont.update(copy_)
+
+
+_SNAPSHOT = None
+
+
+def pristine_state():
+    """The snapshot of this process (taken at first call: call before anything is rendered)."""
+    global _SNAPSHOT
+    if _SNAPSHOT is None:
+        from ak import color, ppobj, ghist, hdoc
+        _SNAPSHOT = StateSnapshot([color, ppobj, ghist, hdoc])
+    return _SNAPSHOT
+
+
 class HistoryDisabled(Exception):
     """The history contains a transition that is not enabled (e.g. drop of a configuration that
     does not exist): it is the same as a shorter history and is not counted."""
@@ -105,6 +226,7 @@ class World:
     def __init__(self):
         from ak import color, ppobj, ghist, hdoc  # noqa: F401  (import everything before freezing)
         self.color, self.ppobj, self.hdoc = color, ppobj, hdoc
+        self.snapshot = pristine_state()                   # before anything is rendered in this process
         R.palettes()
         R._hdoc_target()
         self.ids = AdversarialId()
@@ -138,6 +260,7 @@ class World:
         self.events = set()
         self.n_ops = 0
         self.ids.reset()
+        self.snapshot.restore()                            # whatever lives at module / class scope
         color._GLOBAL_COLORS_CONF = None
         for k in list(color._GSYNCED_PALETTES):
             if color._GSYNCED_PALETTES[k] is not color.global_palette:
